@@ -260,9 +260,9 @@ class SpatialVector(SMUserList):
         if isinstance(left, (SE3, Twist3)):
             X = left.Ad()
             if isinstance(right, SpatialM6):
-                return right.__class__(X @ right.A)
+                return right.__class__([X @ x for x in right.data])
             else:
-                return right.__class__(X.T @ right.A)
+                return right.__class__([X.T @ x for x in right.data])
         else:
             raise TypeError('left operand of * must be SE3 or Twist3')
 
@@ -316,9 +316,9 @@ class SpatialM6(SpatialVector):
                             [ 0,     0,     0,     -v[4],   v[3],   0     ]
                         ])
         if isinstance(other, SpatialVelocity):
-            return SpatialAcceleration(vcross @ other.A)  # x operator (crm)
+            return SpatialAcceleration([vcross @ x for x in other.data])  # x operator (crm)
         elif isinstance(other, SpatialF6):
-            return SpatialForce(-vcross.T @ other.A)      # x* operator (crf)
+            return SpatialForce([-vcross.T @ x for x in other.data])      # x* operator (crf)
         else:
             raise TypeError('type mismatch')
         
@@ -605,11 +605,11 @@ class SpatialInertia(SMUserList):
         """
 
         if isinstance(right, SpatialAcceleration):
-            return SpatialForce(left.A @ right.A)  # F = ma
+            return SpatialForce([left.A @ x for x in right.data])  # F = ma
         elif isinstance(right, SpatialVelocity):
             # crf(v(i).vw)*model.I(i).I*v(i).vw;
             # v = Wrench( a.cross() * I.I * a.vw );
-            return SpatialMomentum(left.A @ right.A)   # M = mv
+            return SpatialMomentum([left.A @ x for x in right.data])   # M = mv
         else:
             raise TypeError('bad postmultiply operands for Inertia *')
 
